@@ -167,7 +167,7 @@ def run(ctx, out):
                 'collect_errors, from_data, convert, Cls.from_data, from_json/from_yaml on streams; plus a fixed list of '
                 'unsupported annotations that must fail at build time with TypeError/UnsupportedAnnotation. '
                 'Non-trivial = non-leaf type; distinct by (type term, value).')
-    convprop.run(ctx, out, PROP, monitor, cfg={'weights': {'tagged': 1.6, 'cond': 1.8, 'dict': 1.8, 'class': 2.0, 'enum': 1.0, 'std': 2.5}, 'enum_tuple': True}, extra_cases=lambda rng: convprop.cases_from_pairs(gen.tagged_shape_cases(rng), rng, 'tagged-shapes') + convprop.cases_from_pairs(gen.std_kind_cases(rng), rng, 'library-types') + convprop.cases_from_pairs(gen.raising_predicate_cases(rng), rng, 'raising-predicates') + convprop.cases_from_pairs(gen.cond_on_converted_cases(rng), rng, 'conditions-on-converted-values'))
+    convprop.run(ctx, out, PROP, monitor, cfg={'weights': {'tagged': 1.6, 'cond': 1.8, 'dict': 1.8, 'class': 2.0, 'enum': 1.0, 'std': 2.5}, 'enum_tuple': True}, extra_cases=lambda rng: convprop.cases_from_pairs(gen.tagged_shape_cases(rng), rng, 'tagged-shapes') + convprop.cases_from_pairs(gen.std_kind_cases(rng), rng, 'library-types') + convprop.cases_from_pairs(gen.raising_predicate_cases(rng), rng, 'raising-predicates') + convprop.cases_from_pairs(gen.cond_on_converted_cases(rng), rng, 'conditions-on-converted-values') + convprop.cases_from_pairs(gen.degenerate_class_cases(rng), rng, 'degenerate-classes'))
     # ints beyond the interpreter's int -> str digit limit (sys.get_int_max_str_digits(), 4300 by default) are interchange data too
     import sys
     import typing as _t
